@@ -54,7 +54,7 @@ def run(ctx):
     if ctx.tier == "thorough":
         from vcheck import lean as L
 
-        for f_ in ("MGibbs.lean",):
+        for f_ in ("MGibbs.lean", "MTelescope.lean"):
             L.check_file(ctx, f_, "C01")
     # ---- bounded stand-in: exact-kernel oracle
     from bounded import kernels as BK
